@@ -58,6 +58,8 @@ structure Side where
   rejectedRx : List (Nat × Bool) := []   -- Rejected frames delivered: (client port, no_ports)
   openedRx : List Nat := []
   listenerFinishRx : Bool := false
+  /-- client ports of the OpenPort requests delivered to this side and not answered by it yet -/
+  openRx : List Nat := []
   maxPorts : Nat := 0
   allocFree : Option Nat := none
 
@@ -79,6 +81,8 @@ structure CSim where
   retSeen : List String := []
   pendingEnd : List String := []
   tasksBefore : Option Nat := none
+  /-- wires whose window or release was restricted by the script and not reopened yet -/
+  stalled : List String := []
   replayOk : Bool := true
   c07 : Bool := true
   c10 : Bool := true
@@ -140,7 +144,9 @@ def CSim.onTxMsg (s : CSim) (line : Nat) (x : String) (m : Msg) : CSim :=
           | none => s
         | [] => s
       (s, sd)
+    | .rejected cp _ => (s, { sd with openRx := sd.openRx.filter (· != cp) })
     | .portOpened cp sp =>
+      let sd := { sd with openRx := sd.openRx.filter (· != cp) }
       let s := if sd.open_.any (·.num == sp) then s.fail "c07" line s!"side {x} assigns server port {sp} which is still open" else s
       let sd := { sd with open_ := sd.open_ ++ [({ num := sp, peer := some cp, connecting := false } : WPort)] }
       let s := if sd.open_.length > sd.maxPorts then s.fail "c07" line s!"side {x} has {sd.open_.length} ports open on the wire, max_ports is {sd.maxPorts}" else s
@@ -217,6 +223,7 @@ def CSim.onRxMsg (s : CSim) (line : Nat) (x : String) (m : Msg) : CSim :=
     | .sendFinish p => { sd with open_ := pruneDone (updPort sd.open_ p (fun q => { q with psf := true })) }
     | .receiveFinish p => { sd with open_ := pruneDone (updPort sd.open_ p (fun q => { q with prf := true })) }
     | .listenerFinish => { sd with listenerFinishRx := true }
+    | .openPort cp _ _ => { sd with openRx := sd.openRx ++ [cp] }
     | _ => sd
   let s := s.setSide x sd
   if sd.ep.goodbyeReceived then s else
@@ -362,6 +369,22 @@ def stepLine (a : CAcc) (n : Nat) (line : String) : IO CAcc := do
   | ["opd", "send", _, x, _, hx] =>
     return { a with sim := { s with sendsByPayload := s.sendsByPayload.set hx (x, n) } }
   | ["op", "dropall"] => return { a with sim := { s with teardown := true } }
+  | ["op", kind, x, v] =>
+    if kind == "window" || kind == "release" then
+      let key := kind ++ x
+      let st := s.stalled.filter (· != key)
+      return { a with sim := { s with stalled := if v == "inf" then st else st ++ [key] } }
+    else return { a with sim := s }
+  | "listen" :: x :: rest =>
+    -- quiescent point: every port-open request delivered to x and not answered yet must still be somewhere:
+    -- waiting in the listener queue or held by the application (a request object or a call that owns one)
+    match kvNat rest "q", kvNat rest "held" with
+    | some q, some h =>
+      let o := ((s.side x).ep.outstanding.filter ((s.side x).openRx.contains ·)).length
+      if !s.teardown && s.replayOk && s.stalled.isEmpty && s.a.run.isNone && s.b.run.isNone && o > q + h then
+        return { a with sim := s.fail "c10" n s!"side {x} has {o} unanswered port-open requests, but only {q} wait in its listener queue and {h} are held by the application: a request was consumed without being answered" }
+      else return { a with sim := s }
+    | _, _ => return { a with sim := s }
   | ["sent", k] =>
     match s.connects.get? k with
     | some (x, w, cp, _) => return { a with sim := { s with connects := s.connects.set k (x, w, cp, some n) } }
@@ -408,7 +431,7 @@ def stepLine (a : CAcc) (n : Nat) (line : String) : IO CAcc := do
       let final := rest.contains "final"
       let s := if final && f != m then
           s.fail "c07" n s!"after all ports, requests and listeners were dropped only {f} of {m} port numbers of side {x} can be allocated"
-        else if !final && s.replayOk && f + held != m then
+        else if !final && s.replayOk && (s.side x).run.isNone && f + held != m then
           s.fail "c07" n s!"side {x}: {f} of {m} port numbers are free but the ports still open or connecting are {held} (port numbers leaked or released early)"
         else s
       return { a with sim := s }
